@@ -107,77 +107,119 @@ Ipc == {"ipc_file", "ipc_stream", "flight"}
 
 KFTable == {
   [id |-> "C08-variant-uuid-short-panic", outcome |-> "panic", fmts |-> {"variant"}, wfile |-> "parquet-variant/src/decoder.rs",
-   msg |-> "range end index", fmods |-> {"parquet_variant::decoder"}],
+   msg |-> "range end index",
+   fns |-> {"parquet_variant::decoder::decode_uuid"}],
   [id |-> "C08-variant-date-overflow-panic", outcome |-> "panic", fmts |-> {"variant"}, wfile |-> "parquet-variant/src/decoder.rs",
-   msg |-> "`DateTime + TimeDelta` overflowed", fmods |-> {"parquet_variant::decoder"}],
+   msg |-> "`DateTime + TimeDelta` overflowed",
+   fns |-> {"parquet_variant::decoder::decode_date"}],
   [id |-> "C08-variant-metadata-split-utf8", outcome |-> "panic", fmts |-> {"variant"}, wfile |-> "parquet-variant/src/variant/metadata.rs",
-   msg |-> "Invalid metadata dictionary entry", fmods |-> {"", "parquet_variant::variant"}],
-  [id |-> "C08-ipc-decompress-alloc", outcome |-> "alloc", fmts |-> {"ipc_file", "ipc_stream"}, wfile |-> "",
-   msg |-> "alloc", fmods |-> {"arrow_ipc::compression"}],
-  [id |-> "C08-ipc-length-field-alloc", outcome |-> "alloc", fmts |-> {"ipc_file", "ipc_stream"}, wfile |-> "",
-   msg |-> "alloc", fmods |-> {"arrow_ipc::reader"}],
-  [id |-> "C08-pq-thrift-schema-alloc", outcome |-> "alloc", fmts |-> {"parquet"}, wfile |-> "",
-   msg |-> "alloc", fmods |-> {"parquet::schema"}],
-  [id |-> "C08-avro-ocf-no-progress-loop", outcome |-> "hang", fmts |-> {"avro_ocf"}, wfile |-> "",
-   msg |-> "watchdog", fmods |-> {""}],
-  [id |-> "C08-ipc-validity-bitmap-short", outcome |-> "panic", fmts |-> {"flight", "ipc_file", "ipc_stream"}, wfile |-> "arrow-buffer/src/buffer/boolean.rs",
-   msg |-> "buffer not large enough", fmods |-> {"arrow_ipc::reader"}],
-  [id |-> "C08-ipc-buffer-not-multiple-of-width", outcome |-> "panic", fmts |-> {"flight", "ipc_file", "ipc_stream"}, wfile |-> "arrow-buffer/src/buffer/immutable.rs",
-   msg |-> "assertion failed", fmods |-> {"arrow_ipc::reader"}],
-  [id |-> "C08-ipc-buffer-beyond-body", outcome |-> "panic", fmts |-> {"flight", "ipc_file", "ipc_stream"}, wfile |-> "arrow-buffer/src/buffer/immutable.rs",
-   msg |-> "the offset of the new Buffer cannot exceed the existing length", fmods |-> {"arrow_ipc::reader"}],
-  [id |-> "C08-ipc-buffer-misaligned", outcome |-> "panic", fmts |-> {"ipc_stream"}, wfile |-> "arrow-buffer/src/buffer/scalar.rs",
-   msg |-> "Memory pointer is not aligned with the specified scalar type", fmods |-> {"arrow_ipc::reader"}],
-  [id |-> "C08-pq-def-levels-out-of-bounds", outcome |-> "panic", fmts |-> {"parquet"}, wfile |-> "arrow-buffer/src/util/bit_chunk_iterator.rs",
-   msg |-> "offset + len out of bounds", fmods |-> {"parquet::arrow"}],
-  [id |-> "C08-pq-def-levels-bit-util-assert", outcome |-> "panic", fmts |-> {"parquet"}, wfile |-> "arrow-buffer/src/util/bit_util.rs",
-   msg |-> "assertion `left != right` failed", fmods |-> {"parquet::arrow"}],
-  [id |-> "C08-ipc-arraydata-build-unwrap", outcome |-> "panic", fmts |-> {"ipc_file", "ipc_stream"}, wfile |-> "arrow-data/src/data.rs",
-   msg |-> "called `Result", fmods |-> {"arrow_ipc::reader"}],
-  [id |-> "C08-ipc-fixed-size-list-overflow", outcome |-> "panic", fmts |-> {"ipc_file", "ipc_stream"}, wfile |-> "arrow-data/src/data.rs",
-   msg |-> "integer overflow computing expected number of expected values in Fixed", fmods |-> {"arrow_ipc::reader"}],
-  [id |-> "C08-ipc-variadic-counts-assert", outcome |-> "panic", fmts |-> {"ipc_file", "ipc_stream"}, wfile |-> "arrow-ipc/src/reader.rs",
-   msg |-> "assertion failed", fmods |-> {"arrow_ipc::reader"}],
-  [id |-> "C08-ipc-reader-unwrap-none", outcome |-> "panic", fmts |-> {"flight", "ipc_file", "ipc_stream"}, wfile |-> "arrow-ipc/src/reader.rs",
-   msg |-> "called `Option", fmods |-> {"arrow_ipc::reader"}],
-  [id |-> "C08-ipc-reader-index", outcome |-> "panic", fmts |-> {"ipc_file", "ipc_stream"}, wfile |-> "arrow-ipc/src/reader.rs",
-   msg |-> "index out of bounds", fmods |-> {"arrow_ipc::reader"}],
-  [id |-> "C08-pq-bytes-slice-out-of-bounds", outcome |-> "panic", fmts |-> {"parquet"}, wfile |-> "bytes-1.12.1/src/bytes.rs",
-   msg |-> "range end out of bounds", fmods |-> {"parquet::column", "parquet::encodings"}],
-  [id |-> "C08-pq-bytes-slice-start-after-end", outcome |-> "panic", fmts |-> {"parquet"}, wfile |-> "bytes-1.12.1/src/bytes.rs",
-   msg |-> "range start must not be greater than end", fmods |-> {"parquet::encodings"}],
-  [id |-> "C08-pq-byte-array-divide-by-zero", outcome |-> "panic", fmts |-> {"parquet"}, wfile |-> "parquet/src/arrow/array_reader/byte_array.rs",
-   msg |-> "attempt to divide by zero", fmods |-> {"parquet::arrow"}],
-  [id |-> "C08-pq-flba-divide-by-zero", outcome |-> "panic", fmts |-> {"parquet"}, wfile |-> "parquet/src/arrow/array_reader/fixed_len_byte_array.rs",
-   msg |-> "attempt to divide by zero", fmods |-> {"parquet::arrow"}],
-  [id |-> "C08-pq-flba-unwrap-none", outcome |-> "panic", fmts |-> {"parquet"}, wfile |-> "parquet/src/arrow/array_reader/fixed_len_byte_array.rs",
-   msg |-> "called `Option", fmods |-> {"parquet::arrow"}],
-  [id |-> "C08-pq-flba-range-end", outcome |-> "panic", fmts |-> {"parquet"}, wfile |-> "parquet/src/arrow/array_reader/fixed_len_byte_array.rs",
-   msg |-> "range end index", fmods |-> {"parquet::arrow"}],
-  [id |-> "C08-pq-flba-range-start", outcome |-> "panic", fmts |-> {"parquet"}, wfile |-> "parquet/src/arrow/array_reader/fixed_len_byte_array.rs",
-   msg |-> "range start index", fmods |-> {"parquet::arrow"}],
-  [id |-> "C08-pq-delta-byte-array-slice", outcome |-> "panic", fmts |-> {"parquet"}, wfile |-> "parquet/src/arrow/decoder/delta_byte_array.rs",
-   msg |-> "slice index starts at", fmods |-> {"parquet::arrow"}],
-  [id |-> "C08-pq-page-header-unwrap-none", outcome |-> "panic", fmts |-> {"parquet"}, wfile |-> "parquet/src/column/page.rs",
-   msg |-> "called `Option", fmods |-> {"parquet::column"}],
-  [id |-> "C08-pq-dict-decoder-missing", outcome |-> "panic", fmts |-> {"parquet"}, wfile |-> "parquet/src/column/reader/decoder.rs",
-   msg |-> "Decoder for dict should have been set", fmods |-> {"parquet::column"}],
-  [id |-> "C08-pq-plain-decoder-assert", outcome |-> "panic", fmts |-> {"parquet"}, wfile |-> "parquet/src/data_type.rs",
-   msg |-> "assertion failed", fmods |-> {"parquet::encodings"}],
-  [id |-> "C08-pq-plain-decoder-no-data", outcome |-> "panic", fmts |-> {"parquet"}, wfile |-> "parquet/src/data_type.rs",
-   msg |-> "set_data should have been called", fmods |-> {"parquet::encodings"}],
-  [id |-> "C08-pq-decoding-range-end", outcome |-> "panic", fmts |-> {"parquet"}, wfile |-> "parquet/src/encodings/decoding.rs",
-   msg |-> "range end index", fmods |-> {"parquet::encodings"}],
-  [id |-> "C08-pq-byte-stream-split-index", outcome |-> "panic", fmts |-> {"parquet"}, wfile |-> "parquet/src/encodings/decoding/byte_stream_split_decoder.rs",
-   msg |-> "index out of bounds", fmods |-> {"parquet::encodings"}],
-  [id |-> "C08-pq-negative-column-range", outcome |-> "panic", fmts |-> {"parquet"}, wfile |-> "parquet/src/file/metadata/mod.rs",
-   msg |-> "column start and length should not be negative", fmods |-> {"parquet::file"}],
+   msg |-> "Invalid metadata dictionary entry",
+   fns |-> {""}],
+  [id |-> "C08-ipc-buffer-misaligned", outcome |-> "panic", fmts |-> {"ipc_file", "ipc_stream", "flight"}, wfile |-> "arrow-buffer/src/buffer/scalar.rs",
+   msg |-> "Memory pointer is not aligned with the specified scalar type",
+   fns |-> {"arrow_ipc::reader::RecordBatchDecoder::create_array"}],
   [id |-> "C08-pq-record-reader-assert", outcome |-> "panic", fmts |-> {"parquet"}, wfile |-> "parquet/src/record/reader.rs",
-   msg |-> "assertion `left == right` failed", fmods |-> {"parquet::record"}],
+   msg |-> "assertion `left == right` failed",
+   fns |-> {"parquet::record::reader::TreeBuilder::reader_tree"}],
+  [id |-> "C08-ipc-decompress-alloc", outcome |-> "alloc", fmts |-> {"ipc_file", "ipc_stream"}, wfile |-> "",
+   msg |-> "alloc",
+   fns |-> {"arrow_ipc::compression::CompressionCodec::decompress_to_buffer"}],
+  [id |-> "C08-ipc-length-field-alloc", outcome |-> "alloc", fmts |-> {"ipc_file", "ipc_stream"}, wfile |-> "",
+   msg |-> "alloc",
+   fns |-> {"arrow_ipc::reader::FileReader<R>::try_new", "arrow_ipc::reader::read_block", "arrow_ipc::reader::read_body_bounded"}],
+  [id |-> "C08-pq-arrow-value-decoder-alloc", outcome |-> "alloc", fmts |-> {"parquet"}, wfile |-> "",
+   msg |-> "alloc",
+   fns |-> {"<parquet::arrow::array_reader::fixed_len_byte_array::ValueDecoder as parquet::column::reader::decoder::ColumnValueDecoder>::read", "parquet::arrow::array_reader::byte_array::ByteArrayDecoderPlain::read"}],
+  [id |-> "C08-pq-dict-decoder-alloc", outcome |-> "alloc", fmts |-> {"parquet"}, wfile |-> "",
+   msg |-> "alloc",
+   fns |-> {"parquet::encodings::decoding::DictDecoder<T>::set_dict"}],
+  [id |-> "C08-pq-thrift-schema-alloc", outcome |-> "alloc", fmts |-> {"parquet"}, wfile |-> "",
+   msg |-> "alloc",
+   fns |-> {"parquet::schema::types::schema_from_array_helper"}],
+  [id |-> "C08-avro-ocf-no-progress-loop", outcome |-> "hang", fmts |-> {"avro_ocf"}, wfile |-> "",
+   msg |-> "watchdog",
+   fns |-> {""}],
+  [id |-> "C08-ipc-validity-bitmap-short", outcome |-> "panic", fmts |-> {"flight", "ipc_file", "ipc_stream"}, wfile |-> "arrow-buffer/src/buffer/boolean.rs",
+   msg |-> "buffer not large enough",
+   fns |-> {"arrow_ipc::reader::RecordBatchDecoder::create_dictionary_array", "arrow_ipc::reader::RecordBatchDecoder::create_list_array", "arrow_ipc::reader::RecordBatchDecoder::create_list_view_array", "arrow_ipc::reader::RecordBatchDecoder::create_primitive_array", "arrow_ipc::reader::RecordBatchDecoder::create_struct_array"}],
+  [id |-> "C08-ipc-buffer-not-multiple-of-width", outcome |-> "panic", fmts |-> {"flight", "ipc_file", "ipc_stream"}, wfile |-> "arrow-buffer/src/buffer/immutable.rs",
+   msg |-> "assertion failed",
+   fns |-> {"arrow_ipc::reader::RecordBatchDecoder::create_dictionary_array", "arrow_ipc::reader::RecordBatchDecoder::create_list_array", "arrow_ipc::reader::RecordBatchDecoder::create_list_view_array", "arrow_ipc::reader::RecordBatchDecoder::create_primitive_array"}],
+  [id |-> "C08-ipc-buffer-beyond-body", outcome |-> "panic", fmts |-> {"flight", "ipc_file", "ipc_stream"}, wfile |-> "arrow-buffer/src/buffer/immutable.rs",
+   msg |-> "the offset of the new Buffer cannot exceed the existing length",
+   fns |-> {"arrow_ipc::reader::RecordBatchDecoder::create_array", "arrow_ipc::reader::RecordBatchDecoder::next_buffer"}],
+  [id |-> "C08-pq-def-levels-out-of-bounds", outcome |-> "panic", fmts |-> {"parquet"}, wfile |-> "arrow-buffer/src/util/bit_chunk_iterator.rs",
+   msg |-> "offset + len out of bounds",
+   fns |-> {"<parquet::arrow::record_reader::definition_levels::DefinitionLevelBufferDecoder as parquet::column::reader::decoder::DefinitionLevelDecoder>::read_def_levels"}],
+  [id |-> "C08-pq-def-levels-bit-util-assert", outcome |-> "panic", fmts |-> {"parquet"}, wfile |-> "arrow-buffer/src/util/bit_util.rs",
+   msg |-> "assertion `left != right` failed",
+   fns |-> {"<parquet::arrow::record_reader::definition_levels::DefinitionLevelBufferDecoder as parquet::column::reader::decoder::DefinitionLevelDecoder>::read_def_levels"}],
+  [id |-> "C08-ipc-arraydata-build-unwrap", outcome |-> "panic", fmts |-> {"ipc_file", "ipc_stream"}, wfile |-> "arrow-data/src/data.rs",
+   msg |-> "called `Result",
+   fns |-> {"arrow_ipc::reader::RecordBatchDecoder::create_primitive_array"}],
+  [id |-> "C08-ipc-fixed-size-list-overflow", outcome |-> "panic", fmts |-> {"ipc_file", "ipc_stream"}, wfile |-> "arrow-data/src/data.rs",
+   msg |-> "integer overflow computing expected number of expected values in Fixed",
+   fns |-> {"arrow_ipc::reader::RecordBatchDecoder::create_list_array"}],
+  [id |-> "C08-ipc-variadic-counts-assert", outcome |-> "panic", fmts |-> {"ipc_file", "ipc_stream"}, wfile |-> "arrow-ipc/src/reader.rs",
+   msg |-> "assertion failed",
+   fns |-> {"arrow_ipc::reader::RecordBatchDecoder::read_record_batch"}],
+  [id |-> "C08-ipc-reader-unwrap-none", outcome |-> "panic", fmts |-> {"flight", "ipc_file", "ipc_stream"}, wfile |-> "arrow-ipc/src/reader.rs",
+   msg |-> "called `Option",
+   fns |-> {"arrow_ipc::reader::get_dictionary_values", "arrow_ipc::reader::read_block"}],
+  [id |-> "C08-ipc-reader-index", outcome |-> "panic", fmts |-> {"ipc_file", "ipc_stream"}, wfile |-> "arrow-ipc/src/reader.rs",
+   msg |-> "index out of bounds",
+   fns |-> {"arrow_ipc::reader::RecordBatchDecoder::create_primitive_array"}],
+  [id |-> "C08-pq-bytes-slice-out-of-bounds", outcome |-> "panic", fmts |-> {"parquet"}, wfile |-> "bytes-1.12.1/src/bytes.rs",
+   msg |-> "range end out of bounds",
+   fns |-> {"<parquet::encodings::decoding::DeltaLengthByteArrayDecoder<T> as parquet::encodings::decoding::Decoder<T>>::get", "parquet::column::reader::GenericColumnReader<R,D,V>::read_new_page", "parquet::column::reader::GenericColumnReader<R,D,V>::read_records"}],
+  [id |-> "C08-pq-bytes-slice-start-after-end", outcome |-> "panic", fmts |-> {"parquet"}, wfile |-> "bytes-1.12.1/src/bytes.rs",
+   msg |-> "range start must not be greater than end",
+   fns |-> {"<parquet::encodings::decoding::DeltaByteArrayDecoder<T> as parquet::encodings::decoding::Decoder<T>>::set_data", "<parquet::encodings::decoding::DeltaLengthByteArrayDecoder<T> as parquet::encodings::decoding::Decoder<T>>::get", "<parquet::encodings::decoding::DeltaLengthByteArrayDecoder<T> as parquet::encodings::decoding::Decoder<T>>::set_data", "parquet::arrow::decoder::delta_byte_array::DeltaByteArrayDecoder::new"}],
+  [id |-> "C08-pq-byte-array-divide-by-zero", outcome |-> "panic", fmts |-> {"parquet"}, wfile |-> "parquet/src/arrow/array_reader/byte_array.rs",
+   msg |-> "attempt to divide by zero",
+   fns |-> {"parquet::arrow::array_reader::byte_array::ByteArrayDecoderPlain::read"}],
+  [id |-> "C08-pq-flba-divide-by-zero", outcome |-> "panic", fmts |-> {"parquet"}, wfile |-> "parquet/src/arrow/array_reader/fixed_len_byte_array.rs",
+   msg |-> "attempt to divide by zero",
+   fns |-> {"<parquet::arrow::array_reader::fixed_len_byte_array::ValueDecoder as parquet::column::reader::decoder::ColumnValueDecoder>::read"}],
+  [id |-> "C08-pq-flba-unwrap-none", outcome |-> "panic", fmts |-> {"parquet"}, wfile |-> "parquet/src/arrow/array_reader/fixed_len_byte_array.rs",
+   msg |-> "called `Option",
+   fns |-> {"<parquet::arrow::array_reader::fixed_len_byte_array::ValueDecoder as parquet::column::reader::decoder::ColumnValueDecoder>::read"}],
+  [id |-> "C08-pq-flba-range-end", outcome |-> "panic", fmts |-> {"parquet"}, wfile |-> "parquet/src/arrow/array_reader/fixed_len_byte_array.rs",
+   msg |-> "range end index",
+   fns |-> {"<parquet::arrow::array_reader::fixed_len_byte_array::ValueDecoder as parquet::column::reader::decoder::ColumnValueDecoder>::read"}],
+  [id |-> "C08-pq-flba-range-start", outcome |-> "panic", fmts |-> {"parquet"}, wfile |-> "parquet/src/arrow/array_reader/fixed_len_byte_array.rs",
+   msg |-> "range start index",
+   fns |-> {"<parquet::arrow::array_reader::fixed_len_byte_array::ValueDecoder as parquet::column::reader::decoder::ColumnValueDecoder>::read"}],
+  [id |-> "C08-pq-delta-byte-array-slice", outcome |-> "panic", fmts |-> {"parquet"}, wfile |-> "parquet/src/arrow/decoder/delta_byte_array.rs",
+   msg |-> "slice index starts at",
+   fns |-> {"parquet::arrow::array_reader::byte_array::ByteArrayDecoder::read", "parquet::arrow::decoder::delta_byte_array::DeltaByteArrayDecoder::read"}],
+  [id |-> "C08-pq-page-header-unwrap-none", outcome |-> "panic", fmts |-> {"parquet"}, wfile |-> "parquet/src/column/page.rs",
+   msg |-> "called `Option",
+   fns |-> {"<parquet::column::page::PageMetadata as core::convert::TryFrom<&parquet::file::metadata::thrift::PageHeader>>::try_from"}],
+  [id |-> "C08-pq-dict-decoder-missing", outcome |-> "panic", fmts |-> {"parquet"}, wfile |-> "parquet/src/column/reader/decoder.rs",
+   msg |-> "Decoder for dict should have been set",
+   fns |-> {"<parquet::column::reader::decoder::ColumnValueDecoderImpl<T> as parquet::column::reader::decoder::ColumnValueDecoder>::set_data"}],
+  [id |-> "C08-pq-plain-decoder-assert", outcome |-> "panic", fmts |-> {"parquet"}, wfile |-> "parquet/src/data_type.rs",
+   msg |-> "assertion failed",
+   fns |-> {"<parquet::encodings::decoding::PlainDecoder<T> as parquet::encodings::decoding::Decoder<T>>::get"}],
+  [id |-> "C08-pq-plain-decoder-no-data", outcome |-> "panic", fmts |-> {"parquet"}, wfile |-> "parquet/src/data_type.rs",
+   msg |-> "set_data should have been called",
+   fns |-> {"<parquet::encodings::decoding::DeltaByteArrayDecoder<T> as parquet::encodings::decoding::Decoder<T>>::get"}],
+  [id |-> "C08-pq-decoding-range-end", outcome |-> "panic", fmts |-> {"parquet"}, wfile |-> "parquet/src/encodings/decoding.rs",
+   msg |-> "range end index",
+   fns |-> {"<parquet::encodings::decoding::DeltaBitPackDecoder<T> as parquet::encodings::decoding::Decoder<T>>::get"}],
+  [id |-> "C08-pq-byte-stream-split-index", outcome |-> "panic", fmts |-> {"parquet"}, wfile |-> "parquet/src/encodings/decoding/byte_stream_split_decoder.rs",
+   msg |-> "index out of bounds",
+   fns |-> {"parquet::encodings::decoding::byte_stream_split_decoder::join_streams_const"}],
+  [id |-> "C08-pq-negative-column-range", outcome |-> "panic", fmts |-> {"parquet"}, wfile |-> "parquet/src/file/metadata/mod.rs",
+   msg |-> "column start and length should not be negative",
+   fns |-> {"parquet::file::metadata::ColumnChunkMetaData::byte_range"}],
   [id |-> "C08-pq-record-triplet-panic", outcome |-> "panic", fmts |-> {"parquet"}, wfile |-> "parquet/src/record/triplet.rs",
-   msg |-> "Cannot extract value, max definition level", fmods |-> {"parquet::record"}],
+   msg |-> "Cannot extract value, max definition level",
+   fns |-> {"parquet::record::triplet::TripletIter::current_value"}],
   [id |-> "C08-pq-bit-reader-range-end", outcome |-> "panic", fmts |-> {"parquet"}, wfile |-> "parquet/src/util/bit_util.rs",
-   msg |-> "range end index", fmods |-> {"parquet::encodings"}]
+   msg |-> "range end index",
+   fns |-> {"<parquet::encodings::decoding::PlainDecoder<T> as parquet::encodings::decoding::Decoder<T>>::get"}]
 }
 
 KFMatch(k, e) ==
